@@ -5,6 +5,7 @@ package kcp
 import (
 	"bytes"
 	"fmt"
+	"strings"
 	"time"
 
 	"verif/explore"
@@ -112,6 +113,7 @@ func vfC15(c *hx.Ctx) {
 		pool  vrt.PoolMode
 	}
 	variants := []variant{
+		{"client-first/quarantine/dup=2", []int{0, 1, 2}, vrt.PoolQuarantine},
 		{"client-first/quarantine", []int{0, 1, 2}, vrt.PoolQuarantine},
 		{"server-first/eager", []int{1, 0, 2}, vrt.PoolEager},
 		{"listener-first/quarantine", []int{2, 0, 1}, vrt.PoolQuarantine},
@@ -134,6 +136,9 @@ func vfC15(c *hx.Ctx) {
 			vr := vr
 			cf := g.cfg
 			cf.Pool = vr.pool
+			if strings.Contains(vr.name, "dup=2") {
+				cf.Dup = 2
+			}
 			cf.K = 2
 			cf.Fates = []int{vfDeliver, vfDrop}
 			cf.Owners = []string{"C15:"}
@@ -175,6 +180,118 @@ func vfC15(c *hx.Ctx) {
 			p["close_order"], p["pool_mode"] = vr.order, vr.name
 			c.Explore("close/"+vr.name+"/"+g.name, p, bound, vfPairRun(cf, bound, body))
 		}
+	}
+	vfC15Backlog(c)
+}
+
+// vfC15Backlog: more new peers than the accept backlog holds (white-box backlog of 1 or 2), late acceptor, then everything
+// is closed: sessions the listener created must not outlive it, whether they were accepted, queued or turned away.
+func vfC15Backlog(c *hx.Ctx) {
+	for _, backlog := range []int{1, 2} {
+		backlog := backlog
+		run := func(e *explore.Exec) explore.Verdict {
+			var fail, sig string
+			out := hx.RunVrt(e, vrt.Config{PreemptCost: 1, SwitchCost: 1, SelectCost: 1, TimerEarlyCost: -1, Horizon: 30 * time.Second, MaxSteps: 3000000}, func() {
+				vfResetGlobals()
+				vrt.SetPoolMode(vrt.PoolQuarantine)
+				n := vfNewNet()
+				laddr := vfUDP(1, 9000)
+				lsock := n.socket(laddr)
+				n.fate = func(from, to *vfSock, data []byte, idx int) []time.Duration {
+					if idx < 3 && vrt.Choose(2, "fate") == 1 {
+						return nil
+					}
+					return []time.Duration{n.Delay}
+				}
+				var lis *Listener
+				var clients []*UDPSession
+				var socks []*vfSock
+				vrt.Daemons(func() {
+					SystemTimedSched = NewTimedSched(1)
+					lis, _ = ServeConn(nil, 0, 0, lsock)
+					lis.chAccepts = vrt.MakeChan[*UDPSession](backlog)
+					for i := 0; i < 4; i++ {
+						sk := n.socket(vfUDP(byte(20+i), 41000+i))
+						s, _ := NewConn3(uint32(500+i), laddr, nil, 0, 0, sk)
+						s.SetNoDelay(1, 10, 2, 1)
+						clients, socks = append(clients, s), append(socks, sk)
+					}
+				})
+				for i, s := range clients {
+					s.Write([]byte(fmt.Sprintf("hello from client %d", i)))
+				}
+				accepted := []*UDPSession{}
+				nacc := vrt.Choose(4, "sessions accepted before shutdown")
+				vrt.Sleep(60 * time.Millisecond)
+				for i := 0; i < nacc; i++ {
+					lis.SetReadDeadline(vrt.Now().Add(100 * time.Millisecond))
+					if s, err := lis.AcceptKCP(); err == nil {
+						accepted = append(accepted, s)
+					}
+				}
+				for _, s := range clients {
+					s.Close()
+				}
+				for _, s := range accepted {
+					s.Close()
+				}
+				lis.Close()
+				lsock.Close()
+				for _, sk := range socks {
+					sk.Close()
+				}
+				vrt.Idle(2 * time.Second)
+				leakedBacklog := 0
+				for lis.chAccepts.Len() > 0 {
+					var s *UDPSession
+					if vrt.Select(true, lis.chAccepts.RecvCase(&s, nil)) != 0 || s == nil {
+						break
+					}
+					if !s.isClosed() {
+						leakedBacklog++
+						s.Close()
+					}
+				}
+				if leakedBacklog > 0 {
+					vrt.Idle(2 * time.Second)
+				}
+				if n := vrt.ArmedTimers(); n > 0 {
+					sig, fail = "C15:scheduled-callback-left-after-close:sessions-beyond-the-accept-backlog", fmt.Sprintf("%d timer(s) still armed after all clients, accepted sessions, the listener and the sockets were closed (backlog %d, 4 new peers, %d accepted)", n, backlog, len(accepted))
+				}
+				SystemTimedSched.Close()
+				vrt.Idle(2 * time.Second)
+				var left []string
+				for _, th := range vrt.Threads() {
+					if th.Daemon && th.State != "done" {
+						left = append(left, th.Name)
+					}
+				}
+				if len(left) > 0 && fail == "" {
+					sig, fail = "C15:goroutine-left-after-close:sessions-beyond-the-accept-backlog", fmt.Sprintf("library goroutines still alive after everything was closed: %v", left)
+				}
+				if leakedBacklog > 0 && fail == "" {
+					sig, fail = "C15:unaccepted-session-leaked-at-listener-close", fmt.Sprintf("%d session(s) were still in the accept backlog when the listener was closed: nothing closes them", leakedBacklog)
+				}
+				if msg := vrt.PoolVerify(); msg != "" && fail == "" {
+					sig, fail = "C15:"+firstWords(msg, 5), msg
+				}
+			})
+			v := explore.Verdict{Outcome: out.Status.String(), NonTriv: true, Pruned: out.Status == vrt.Pruned}
+			v.StateHash = explore.HashString(fmt.Sprint(e.Choices()))
+			switch {
+			case out.Status == vrt.Panicked:
+				v.Violation, v.Signature = out.Fail+"\n"+out.Stack, "C15:panic:"+vfPanicSite(out.Stack)
+			case out.Status == vrt.Failed:
+				v.Violation, v.Signature = out.Fail, "C15:"+firstWords(out.Fail, 5)
+			case fail != "":
+				v.Violation, v.Signature = fail, sig
+			case out.Status != vrt.Done:
+				v.Violation, v.Signature = "execution ended "+out.Status.String(), "C15:backlog:"+out.Status.String()
+			}
+			return v
+		}
+		c.UnitBudget = 15 * time.Second
+		c.Explore(fmt.Sprintf("backlog-overflow/backlog=%d", backlog), map[string]any{"backlog": backlog, "new_peers": 4, "accepted_before_shutdown": "0..3", "fates": "first 3 datagrams deliver/drop"}, hx.Pick(c, 0, 1), run)
 	}
 }
 
